@@ -253,10 +253,59 @@ theorem gc_at_most_limit (tm : V → Int) (now limit : Int) (s : Spec V) (hl : l
 example : ((Spec.gc (fun v : Int × Int => v.2) 100 2
     [⟨[[97]], (0, 5), 0⟩, ⟨[[98]], (0, 1), 0⟩, ⟨[[99]], (0, 9), 10⟩]).map (·.labels)) = [[[97]]] := by decide
 
+/-! ### one lock acquisition from the first read to the last removal
+
+    `gc_refines_spec` is about the closure as one step; that it *is* one step for every schedule is
+    the lock it holds throughout (`closurePrologue` above, and the skeleton of `Store.Gc` below).
+    What a pass that decides under one acquisition and removes, by label tuple, under a later one
+    would do: -/
+
+/-- the label tuples a scan finds expired -/
+def scanS (tm : V → Int) (now : Int) (s : Spec V) : List (List Bytes) :=
+  (s.filter (expiredS tm now)).map (·.labels)
+/-- their removal, later -/
+def deleteS (ls : List (List Bytes)) (s : Spec V) : Spec V := ls.foldl (fun s l => eraseS l s) s
+
+/-- with nothing in between the two halves are the expiry pass -/
+theorem split_pass_alone_keeps_unexpired (tm : V → Int) (now : Int) (s : Spec V) (e : Entry V)
+    (he : e ∈ s)
+    (huniq : ∀ x ∈ s, expiredS tm now x = true → x.labels ≠ e.labels) :
+    e ∈ deleteS (scanS tm now s) s := by
+  unfold deleteS scanS
+  have key : ∀ (ls : List (List Bytes)) (t : Spec V), e ∈ t → (∀ l ∈ ls, l ≠ e.labels) →
+      e ∈ ls.foldl (fun s l => eraseS l s) t := by
+    intro ls
+    induction ls with
+    | nil => intro t ht _; simpa using ht
+    | cons l ls ih =>
+      intro t ht hl
+      simp only [List.foldl_cons]
+      apply ih
+      · exact mem_eraseS_of_ne l t e ht (fun h => hl l (by simp) h.symm)
+      · intro l' hl'; exact hl l' (by simp [hl'])
+  apply key _ _ he
+  intro l hl
+  simp only [List.mem_map, List.mem_filter] at hl
+  obtain ⟨x, ⟨hx, hxe⟩, rfl⟩ := hl
+  exact huniq x hx hxe
+
+/-- **a split pass is not the property's GC**: label `a`, written at 0, expiring after 1 ns, is found
+    expired at 100; before the removal the VM deletes it (`del m["a"]`) and a line creates it anew,
+    stamped 100, with no expiry.  Nothing in that state is expired — the property's GC leaves it as
+    it is — and the late removal takes the new datum. -/
+def raceBefore : Spec Int := [⟨[[97]], 0, 1⟩]
+def raceAfter : Spec Int := eraseS [[97]] raceBefore ++ [⟨[[97]], 100, 0⟩]
+theorem split_pass_is_unsafe :
+    scanS id 100 raceBefore = [[[97]]] ∧ raceAfter.all (fun e => !expiredS id 100 e) = true ∧
+      (Spec.gc id 100 0 raceAfter).map (·.value) = [100] ∧
+      (deleteS (scanS id 100 raceBefore) raceAfter).map (·.value) = [] := by decide
+
 /-! ### regenerated control skeletons (written by lib/wire_skeletons.py) -/
 /-- Obligations over regenerated facts: the functions this property's model stands for have the
     control skeleton the model was written against (`Proofs/Skeletons.lean`, one `rfl` per function
     or clause; DESIGN.md §11.6a) -/
 theorem metric_skeletons : Skeletons.MetricShape := Skeletons.metric_shape
+theorem f_metrics_store_skeletons : Skeletons.F_metrics_storeShape := Skeletons.f_metrics_store_shape
+theorem f_metrics_metric_skeletons : Skeletons.F_metrics_metricShape := Skeletons.f_metrics_metric_shape
 
 end MtailVerif.C10
